@@ -181,6 +181,10 @@ let () =
               | L [A "packrat"; sz] ->
                 let size = natopt sz in
                 snd (drunc (fun c a -> parsec (step g) args_eqb size fuel c a) [] d)
+              | L [A "lr"; cap] ->
+                (match drunm (fun m a -> parse_lr g fuel m a) (memo_empty (natopt cap)) d with
+                 | Some (r, _) -> Some r
+                 | None -> None)
               | _ -> failwith "mode" in
             (match entry with
              | L [A "parse"; all] ->
